@@ -108,6 +108,7 @@ int vnacal_make_correlated_parameter(vnacal_t *vcp, int other,
 			"of frequencies are equal");
 		goto error;
 	    }
+	    sigma_frequency_vector = vpmrp_end->vpmr_frequency_vector;
 
 	} else {
 	    /*
@@ -148,20 +149,21 @@ int vnacal_make_correlated_parameter(vnacal_t *vcp, int other,
 		    goto error;
 		}
 	    }
-
-	    /*
-	     * Make a copy of sigma_frequency_vector.
-	     */
-	    frequency_vector_copy = calloc(sigma_frequencies, sizeof(double));
-	    if (frequency_vector_copy == NULL) {
-		_vnacal_error(vcp, VNAERR_SYSTEM,
-			"calloc: %s", strerror(errno));
-		goto error;
-	    }
-	    (void)memcpy((void *)frequency_vector_copy,
-		    (void *)sigma_frequency_vector,
-		    sigma_frequencies * sizeof(double));
 	}
+
+	/*
+	 * Make a copy of the frequency vector.  (Even when it is that
+	 * of the initial guess: the guess can be freed before we are.)
+	 */
+	frequency_vector_copy = calloc(sigma_frequencies, sizeof(double));
+	if (frequency_vector_copy == NULL) {
+	    _vnacal_error(vcp, VNAERR_SYSTEM,
+		    "calloc: %s", strerror(errno));
+	    goto error;
+	}
+	(void)memcpy((void *)frequency_vector_copy,
+		(void *)sigma_frequency_vector,
+		sigma_frequencies * sizeof(double));
     }
 
     /*
@@ -196,8 +198,7 @@ int vnacal_make_correlated_parameter(vnacal_t *vcp, int other,
 	    goto error;
 	}
 	if (_vnacommon_spline_calc(sigma_frequencies - 1,
-		    frequency_vector_copy != NULL ?
-		    frequency_vector_copy : vpmrp_end->vpmr_frequency_vector,
+		    frequency_vector_copy,
 		    sigma_vector_copy, spline_vector) == -1) {
 	    _vnacal_error(vcp, VNAERR_SYSTEM,
 		    "malloc: %s", strerror(errno));
@@ -216,14 +217,7 @@ int vnacal_make_correlated_parameter(vnacal_t *vcp, int other,
     vpmrp->vpmr_type = VNACAL_CORRELATED;
     vpmrp->vpmr_other = vpmrp_other;
     vpmrp->vpmr_sigma_frequencies = sigma_frequencies;
-    if (sigma_frequencies == 1) {
-	vpmrp->vpmr_sigma_frequency_vector = NULL;
-    } else if (frequency_vector_copy != NULL) {
-	vpmrp->vpmr_sigma_frequency_vector = frequency_vector_copy;
-    } else {
-	assert(vpmrp_end->vpmr_type == VNACAL_VECTOR);
-	vpmrp->vpmr_sigma_frequency_vector = vpmrp_end->vpmr_frequency_vector;
-    }
+    vpmrp->vpmr_sigma_frequency_vector = frequency_vector_copy;
     vpmrp->vpmr_sigma_vector = sigma_vector_copy;
     vpmrp->vpmr_sigma_spline = spline_vector;
     return vpmrp->vpmr_index;
